@@ -152,10 +152,13 @@ template <class V> static void common_fields(rec &R, const caseinfo &ci, const d
     if (ci.rat) { R.o.raw("A", J(*ci.Aint, R.o)); R.ints("f", f); R.ints("x", x); R.ints("xs", xs); }
     else { R.o.raw("A", "{}").raw("f", "[]").raw("x", "[]").raw("xs", "[]"); }
 }
-template <class V> static void sweep_fields(rec &R, const caseinfo &ci, const sweeps<V> &s, const dvec &dpre, const dvec &dpost, const dvec &dapp) {
+// mag: magnitude of the terms that are summed to form the result (default 0: the result itself). A rank deficient
+// SPAI-1 row has entries of size 1/eps; x + M r is then accurate relative to |M| |r|, not to the (cancelled) result.
+template <class V> static void sweep_fields(rec &R, const caseinfo &ci, const sweeps<V> &s, const dvec &dpre, const dvec &dpost, const dvec &dapp, ld mag = 0, ld magapp = 0) {
     R.vecs("pre", s.pre, ci.rat); R.vecs("post", s.post, ci.rat); R.vecs("app", s.app, ci.rat);
     R.o.b("finite", s.finite).i("e_aspre", md(s.e_aspre));
-    R.o.i("e_pre", md(vd::rel_diff(s.pre, dpre))).i("e_post", md(vd::rel_diff(s.post, dpost))).i("e_app", md(vd::rel_diff(s.app, dapp)));
+    auto rd = [](const dvec &got, const dvec &want, ld m) { return vd::nrm_inf(vd::sub(got, want)) / std::max(std::max((ld)1, vd::nrm_inf(want)), m); };
+    R.o.i("e_pre", md(rd(s.pre, dpre, mag))).i("e_post", md(rd(s.post, dpost, mag))).i("e_app", md(rd(s.app, dapp, magapp)));
 }
 template <class V, class Rx> static void fix_fields(rec &R, const Rx &S, const typename T<V>::M &A, const dvec &xs, bool expect_bitwise) {
     dvec fp, fq; ld err; int bad = fixed_point<V>(S, A, xs, fp, fq, err);
@@ -234,7 +237,7 @@ template <class V> static void c_spai1(const typename T<V>::M &A, const caseinfo
         for (ptrdiff_t p = A.ptr[i]; p < A.ptr[i+1]; ++p) edef = std::max(edef, std::abs(G(i, A.col[p])) / sc);
     }
     rec R("spai1", ci.tag, vd::vt<V>::name(), ci.rat, true); common_fields<V>(R, ci, f, x, xs);
-    sweep_fields<V>(R, ci, s, dp, dp, da);
+    sweep_fields<V>(R, ci, s, dp, dp, da, vd::max_abs(Md) * vd::nrm_inf(r0) * n, vd::max_abs(Md) * vd::nrm_inf(f) * n);
     { dvec m(A.ptr[n]); for (ptrdiff_t p = 0; p < A.ptr[n]; ++p) m[p] = vd::vt<V>::get(S.M->val[p], 0, 0); R.vecs("M", m, ci.rat && samepat); }
     R.o.b("samepat", samepat).b("rankdef", rankdef).i("e_def", md(edef));
     fix_fields<V>(R, S, A, xs, true);
